@@ -1,261 +1,1118 @@
 package main
 
-// C16 — the CLI flags that map onto the option structs: every `f.AddOpt(&xMinifier.Field, short, long, …)` call of
-// cmd/minify/main.go, as `long=xMinifier.Field`; plus the option struct fields of each minifier package (exported ones),
-// so that a new option without a decision in the expectation table is noticed.
+// C16 — (1) the CLI flags that map onto the option structs, (2) the JS version gates.  Everything is read from the
+// type-checked AST, so that renaming a variable / receiver / unexported function, hoisting a sub-expression into a local,
+// moving a declaration or re-ordering calls does not change the facts.
+//
+// CliFlags.flags: every `….AddOpt(dst, short, long, …)` call of cmd/minify whose `dst` is (a once-defined local holding) the
+//   address of a field of one of the library's `Minifier` option structs, as `long=pkg.Field` (long name by constant value;
+//   the struct is identified by its type, not by the name of the variable).
+// CliFlags.optionFields: the exported fields of the six `Minifier` structs.
 
 import (
 	"fmt"
 	"go/ast"
-	"go/printer"
 	"go/token"
+	"go/types"
 	"sort"
 	"strings"
+
+	"golang.org/x/tools/go/packages"
 )
+
+var c16OptionPkgs = []string{"css", "html", "js", "json", "svg", "xml"}
+
+// c16MinifierField: x is `&v.F` (possibly through once-defined locals) with v of type <pkg>.Minifier; returns "pkg.F"
+func c16MinifierField(p *packages.Package, single map[types.Object]ast.Expr, x ast.Expr) string {
+	info := p.TypesInfo
+	for depth := 0; depth < 10; depth++ {
+		x = unparen(x)
+		if id, ok := x.(*ast.Ident); ok {
+			if def, ok := single[info.Uses[id]]; ok {
+				x = def
+				continue
+			}
+		}
+		break
+	}
+	u, ok := x.(*ast.UnaryExpr)
+	if !ok || u.Op != token.AND {
+		return ""
+	}
+	sel, ok := unparen(u.X).(*ast.SelectorExpr)
+	if !ok {
+		return ""
+	}
+	s, ok := info.Selections[sel]
+	if !ok || s.Kind() != types.FieldVal {
+		return ""
+	}
+	rt := s.Recv()
+	if pt, ok := rt.Underlying().(*types.Pointer); ok {
+		rt = pt.Elem()
+	}
+	nt, ok := types.Unalias(rt).(*types.Named)
+	if !ok || nt.Obj().Name() != "Minifier" || nt.Obj().Pkg() == nil {
+		return ""
+	}
+	for _, pk := range c16OptionPkgs {
+		if nt.Obj().Pkg().Path() == modPath+"/"+pk {
+			return pk + "." + s.Obj().Name()
+		}
+	}
+	return ""
+}
 
 func init() {
 	gen("CliFlags", func(r *Repo) (string, error) {
-		fs, err := r.Files("cmd/minify")
+		e, err := r.TEnv()
 		if err != nil {
 			return "", err
 		}
+		p, err := e.Pkg("cmd/minify")
+		if err != nil {
+			return "", err
+		}
+		single := singleDefs(p)
 		var flags []string
-		for _, f := range fs {
+		var ferr error
+		for _, f := range p.Syntax {
+			if !isRepoFile(r.Fset, f) {
+				continue
+			}
 			ast.Inspect(f, func(n ast.Node) bool {
 				call, ok := n.(*ast.CallExpr)
 				if !ok || len(call.Args) < 3 {
 					return true
 				}
-				sel, ok := call.Fun.(*ast.SelectorExpr)
-				if !ok || sel.Sel.Name != "AddOpt" {
+				fn := calleeOf(p.TypesInfo, call)
+				if fn == nil || fn.Name() != "AddOpt" {
 					return true
 				}
-				u, ok := call.Args[0].(*ast.UnaryExpr)
-				if !ok || u.Op != token.AND {
+				field := c16MinifierField(p, single, call.Args[0])
+				if field == "" {
 					return true
 				}
-				tsel, ok := u.X.(*ast.SelectorExpr)
-				if !ok {
-					return true
+				long, err := e.Bytes(p, call.Args[2])
+				if err != nil {
+					ferr = fmt.Errorf("AddOpt(&%s, …): flag name is not a constant string: %v", field, err)
+					return false
 				}
-				base, ok := tsel.X.(*ast.Ident)
-				if !ok || !strings.HasSuffix(base.Name, "Minifier") {
-					return true
-				}
-				long, ok := call.Args[2].(*ast.BasicLit)
-				if !ok {
-					return true
-				}
-				flags = append(flags, fmt.Sprintf("%s=%s.%s", strings.Trim(long.Value, `"`), base.Name, tsel.Sel.Name))
+				flags = append(flags, fmt.Sprintf("%s=%s", long, field))
 				return true
 			})
 		}
+		if ferr != nil {
+			return "", ferr
+		}
 		if len(flags) == 0 {
-			return "", fmt.Errorf("no AddOpt(&xMinifier.Field, …) calls found in cmd/minify")
+			return "", fmt.Errorf("no AddOpt(&<Minifier>.Field, …) calls found in cmd/minify")
 		}
 		sort.Strings(flags)
 		var fields []string
-		for _, pkg := range []string{"css", "html", "js", "json", "svg", "xml"} {
-			pf, err := r.Files(pkg)
+		for _, pkg := range c16OptionPkgs {
+			lp, err := e.Pkg(pkg)
 			if err != nil {
 				return "", err
 			}
-			for _, f := range pf {
-				for _, d := range f.Decls {
-					gd, ok := d.(*ast.GenDecl)
-					if !ok || gd.Tok != token.TYPE {
-						continue
-					}
-					for _, s := range gd.Specs {
-						ts := s.(*ast.TypeSpec)
-						st, ok := ts.Type.(*ast.StructType)
-						if !ok || ts.Name.Name != "Minifier" {
-							continue
-						}
-						for _, fl := range st.Fields.List {
-							for _, nm := range fl.Names {
-								if nm.IsExported() {
-									fields = append(fields, pkg+"."+nm.Name)
-								}
-							}
-						}
-					}
+			tn, ok := lp.Types.Scope().Lookup("Minifier").(*types.TypeName)
+			if !ok {
+				return "", fmt.Errorf("%s: type Minifier not found", pkg)
+			}
+			st, ok := tn.Type().Underlying().(*types.Struct)
+			if !ok {
+				return "", fmt.Errorf("%s.Minifier is not a struct any more", pkg)
+			}
+			for i := 0; i < st.NumFields(); i++ {
+				if st.Field(i).Exported() {
+					fields = append(fields, pkg+"."+st.Field(i).Name())
 				}
 			}
 		}
 		sort.Strings(fields)
-		// the minifier values of run(): how each `xMinifier` variable is defined, what is assigned to its fields, and under
-		// which media types it is registered — the template flavours must be copies of htmlMinifier (made after the flags
-		// were parsed) so that every --html-* flag reaches them
-		var registry []string
-		for _, f := range fs {
-			for _, d := range f.Decls {
-				fd, ok := d.(*ast.FuncDecl)
-				if !ok || fd.Body == nil || fd.Name.Name != "run" {
-					continue
-				}
-				ast.Inspect(fd.Body, func(n ast.Node) bool {
-					switch t := n.(type) {
-					case *ast.AssignStmt:
-						if len(t.Lhs) == 1 && len(t.Rhs) == 1 {
-							l := exprText(r.Fset, t.Lhs[0])
-							base := l
-							if i := strings.IndexByte(l, '.'); i >= 0 {
-								base = l[:i]
-							}
-							if strings.HasSuffix(base, "Minifier") {
-								registry = append(registry, fmt.Sprintf("def %s %s %s", l, t.Tok.String(), c16Src(r, t.Rhs[0])))
-							}
-						}
-					case *ast.CallExpr:
-						ft := exprText(r.Fset, t.Fun)
-						if (ft == "m.Add" || ft == "m.AddRegexp") && len(t.Args) == 2 {
-							a := exprText(r.Fset, t.Args[1])
-							if strings.HasSuffix(a, "Minifier") {
-								registry = append(registry, fmt.Sprintf("reg %s -> %s", exprText(r.Fset, t.Args[0]), a))
-							}
-						}
-					}
-					return true
-				})
-			}
+		registry, err := c16Registry(e, p)
+		if err != nil {
+			return "", err
 		}
-		sort.Strings(registry)
 		var b strings.Builder
 		b.WriteString(header("CliFlags", "/repo/cmd/minify/main.go (AddOpt calls) and the Minifier option structs"))
-		fmt.Fprintf(&b, "/-- `--flag=xMinifier.Field` for every CLI flag bound to an option struct field -/\ndef flags : List String := %s\n\n", leanStrList(flags))
+		fmt.Fprintf(&b, "/-- `--flag=pkg.Field` for every CLI flag bound to a field of a library option struct -/\ndef flags : List String := %s\n\n", leanStrList(flags))
 		fmt.Fprintf(&b, "/-- exported fields of the six `Minifier` option structs -/\ndef optionFields : List String := %s\n\n", leanStrList(fields))
-		fmt.Fprintf(&b, "/-- `run()`: definitions of and assignments to the `xMinifier` variables (`def`), registrations (`reg`) -/\ndef registry : List String := %s\n", leanStrList(registry))
+		fmt.Fprintf(&b, "/-- the option-struct values of cmd/minify (`def id := …`; a copy is named after its origin and what is assigned to it) and the media types each is registered for (`reg key -> id`) -/\ndef registry : List String := %s\n", leanStrList(registry))
 		b.WriteString(footer("CliFlags"))
 		return b.String(), nil
 	})
 }
 
-// version gates: every call `….minVersion(N)` in package js with its enclosing function, and every place where a byte
-// sequence of newer syntax (`**`, `?.`, `??`, template literals through minifyString's allowTemplate, optional catch
-// binding) is produced — so that a new ungated producer changes the regenerated list.
+// c16Registry: the variables of cmd/minify whose type is one of the library's `Minifier` option structs, and their
+// registrations with the minify.M registry (c16x: the template flavours must be copies of the html value the flags are bound
+// to, so that every --html-* flag reaches them).  Variables are named by what they are, not by how they are spelled:
+//   a value defined by a composite literal        <pkg>            (`def html := html.Minifier{}`)
+//   a value defined as a copy of another one      <origin>+F=v,…   with the fields assigned to it afterwards
+// registrations: calls of methods of minify.M (by object) whose second argument is (the address of) such a variable; the key
+// is the constant string, or `regexp "<pattern>"` for regexp.MustCompile(<constant>).
+func c16Registry(e *tenv, p *packages.Package) ([]string, error) {
+	info := p.TypesInfo
+	optPkg := func(t types.Type) string {
+		nt, ok := types.Unalias(t).(*types.Named)
+		if !ok || nt.Obj().Name() != "Minifier" || nt.Obj().Pkg() == nil {
+			return ""
+		}
+		for _, pk := range c16OptionPkgs {
+			if nt.Obj().Pkg().Path() == modPath+"/"+pk {
+				return pk
+			}
+		}
+		return ""
+	}
+	type optVar struct {
+		obj    *types.Var
+		pkg    string
+		def    ast.Expr
+		ndefs  int
+		mods   []string
+		id     string
+		parent *optVar
+	}
+	vars := map[types.Object]*optVar{}
+	var order []*optVar
+	get := func(id *ast.Ident) *optVar {
+		o := info.Defs[id]
+		if o == nil {
+			o = info.Uses[id]
+		}
+		v, ok := o.(*types.Var)
+		if !ok || v.IsField() {
+			return nil
+		}
+		pk := optPkg(v.Type())
+		if pk == "" {
+			return nil
+		}
+		ov, ok := vars[v]
+		if !ok {
+			ov = &optVar{obj: v, pkg: pk}
+			vars[v] = ov
+			order = append(order, ov)
+		}
+		return ov
+	}
+	for _, f := range p.Syntax {
+		if !isRepoFile(e.r.Fset, f) {
+			continue
+		}
+		ast.Inspect(f, func(n ast.Node) bool {
+			switch s := n.(type) {
+			case *ast.AssignStmt:
+				if len(s.Lhs) != len(s.Rhs) {
+					return true
+				}
+				for i, l := range s.Lhs {
+					switch lv := unparen(l).(type) {
+					case *ast.Ident:
+						if ov := get(lv); ov != nil {
+							ov.ndefs++
+							ov.def = s.Rhs[i]
+						}
+					case *ast.SelectorExpr:
+						if id, ok := unparen(lv.X).(*ast.Ident); ok {
+							if ov := get(id); ov != nil {
+								if sel, ok := info.Selections[lv]; ok && sel.Kind() == types.FieldVal {
+									ov.mods = append(ov.mods, lv.Sel.Name+"="+c16Value(e, p, s.Rhs[i]))
+								}
+							}
+						}
+					}
+				}
+			case *ast.ValueSpec:
+				for i, id := range s.Names {
+					if ov := get(id); ov != nil {
+						ov.ndefs++
+						if len(s.Values) == len(s.Names) {
+							ov.def = s.Values[i]
+						}
+					}
+				}
+			}
+			return true
+		})
+	}
+	var name func(ov *optVar, depth int) string
+	name = func(ov *optVar, depth int) string {
+		if ov.id != "" || depth > 5 {
+			return ov.id
+		}
+		base := "?"
+		if ov.ndefs == 1 && ov.def != nil {
+			switch d := unparen(ov.def).(type) {
+			case *ast.CompositeLit:
+				base = ov.pkg
+			case *ast.Ident:
+				if src, ok := vars[info.Uses[d]]; ok && src != ov {
+					ov.parent = src
+					base = name(src, depth+1)
+				}
+			}
+		} else if ov.def == nil && ov.ndefs == 1 {
+			base = ov.pkg // var x pkg.Minifier
+		}
+		mods := append([]string(nil), ov.mods...)
+		sort.Strings(mods)
+		ov.id = base
+		if len(mods) > 0 {
+			ov.id += "+" + strings.Join(mods, ",")
+		}
+		return ov.id
+	}
+	var out []string
+	seen := map[string]int{}
+	for _, ov := range order {
+		id := name(ov, 0)
+		seen[id]++
+		if seen[id] > 1 {
+			ov.id = fmt.Sprintf("%s#%d", id, seen[id])
+		}
+	}
+	for _, ov := range order {
+		desc := "?"
+		switch {
+		case ov.ndefs != 1:
+			desc = fmt.Sprintf("assigned %d times", ov.ndefs)
+		case ov.parent != nil:
+			desc = "copy of " + ov.parent.id
+		case ov.def == nil:
+			desc = ov.pkg + ".Minifier{}"
+		default:
+			if cl, ok := unparen(ov.def).(*ast.CompositeLit); ok {
+				var fs []string
+				for _, el := range cl.Elts {
+					if kv, ok := el.(*ast.KeyValueExpr); ok {
+						fs = append(fs, types.ExprString(kv.Key)+": "+c16Value(e, p, kv.Value))
+					} else {
+						fs = append(fs, c16Value(e, p, el))
+					}
+				}
+				desc = ov.pkg + ".Minifier{" + strings.Join(fs, ", ") + "}"
+			} else {
+				desc = c16Value(e, p, ov.def)
+			}
+		}
+		out = append(out, fmt.Sprintf("def %s := %s", ov.id, desc))
+	}
+	for _, f := range p.Syntax {
+		if !isRepoFile(e.r.Fset, f) {
+			continue
+		}
+		ast.Inspect(f, func(n ast.Node) bool {
+			call, ok := n.(*ast.CallExpr)
+			if !ok || len(call.Args) != 2 {
+				return true
+			}
+			fn := calleeOf(info, call)
+			if fn == nil || !strings.HasPrefix(shortFuncName(fn), "minify.M.Add") {
+				return true
+			}
+			arg := unparen(call.Args[1])
+			if u, ok := arg.(*ast.UnaryExpr); ok && u.Op == token.AND {
+				arg = unparen(u.X)
+			}
+			id, ok := arg.(*ast.Ident)
+			if !ok {
+				return true
+			}
+			ov, ok := vars[info.Uses[id]]
+			if !ok {
+				return true
+			}
+			out = append(out, fmt.Sprintf("reg %s -> %s", c16Value(e, p, call.Args[0]), ov.id))
+			return true
+		})
+	}
+	sort.Strings(out)
+	return out, nil
+}
+
+// c16Value: a constant by value, regexp.MustCompile(<constant>) as `regexp "<pattern>"`, otherwise the source text
+func c16Value(e *tenv, p *packages.Package, x ast.Expr) string {
+	if s, err := e.Bytes(p, x); err == nil {
+		if t := p.TypesInfo.TypeOf(x); t != nil && isString(t) {
+			return fmt.Sprintf("%q", s)
+		}
+	}
+	if b, err := e.Bool(p, x); err == nil {
+		return fmt.Sprint(b)
+	}
+	if n, err := e.Int(p, x); err == nil {
+		return fmt.Sprint(n)
+	}
+	if call, ok := unparen(x).(*ast.CallExpr); ok && len(call.Args) == 1 {
+		if fn := calleeOf(p.TypesInfo, call); fn != nil && fn.Pkg() != nil && fn.Pkg().Path() == "regexp" && fn.Name() == "MustCompile" {
+			if s, err := e.Bytes(p, call.Args[0]); err == nil {
+				return fmt.Sprintf("regexp %q", s)
+			}
+		}
+	}
+	if cl, ok := unparen(x).(*ast.CompositeLit); ok {
+		var fs []string
+		for _, el := range cl.Elts {
+			if kv, ok := el.(*ast.KeyValueExpr); ok {
+				fs = append(fs, types.ExprString(kv.Key)+": "+c16Value(e, p, kv.Value))
+			} else {
+				fs = append(fs, c16Value(e, p, el))
+			}
+		}
+		return types.TypeString(p.TypesInfo.TypeOf(cl), func(q *types.Package) string { return q.Name() }) + "{" + strings.Join(fs, ", ") + "}"
+	}
+	return nodeText(e.r.Fset, x)
+}
+
+// ---------------------------------------------------------------------------------------------------------------------
+// JsVersionGates.
+//
+// gate function   a function of package js with one int parameter p and a bool result whose body is
+//                 `return V == 0 || p <= V` (either order, `V >= p`) with V the field `Version` of js.Minifier — today
+//                 (*Minifier).minVersion; found by this shape, not by name.
+// gate atom       a call of a gate function with a constant argument N, the same test written inline, or a once-defined
+//                 local bool holding one.
+// A statement is *gated N* when it can only execute if a gate atom with that N holds: it sits in the then-branch of an `if`
+// whose condition implies the atom (conjunctions, negations and else-branches are followed; the right operand of `a && b`
+// is gated by a), or behind an `if !atom { return }` in the same statement list.  Init statements and conditions of an `if`
+// are NOT gated by that `if`'s own condition.  Likewise *input-flag Optional*: dominated by a test of a node's Optional field
+// (the printer re-emits `?.` only for nodes that carry the flag).
+//
+// producers       places where syntax newer than ES5 is created rather than copied:
+//                   bytes T        a call that is handed the byte string T ∈ {**, **=, ?., ??, ??=} (by value: named slice, literal, …)
+//                   set Optional   `x.Optional = true` / `Optional: true` on a parse/v2/js node
+//                   token T        a js.TokenType constant T ∈ {NullishToken, OptChainToken, ExpToken, …Eq variants} used as a value
+//                                  (composite literal element, assigned, passed) — not as map key, case label or comparison operand
+//                   template       `minifyString(x, allow)` with `allow` not the constant false (template literals are ES2015)
+//                 A producer that is not gated inside its function makes that function a constructor: every call of it is a
+//                 producer of the same kind (so the label of `toNullishExpr` is the gate around its call).  The fact is the
+//                 set (sorted, no duplicates, no function names) of `kind: gated N | input-flag Optional | UNGATED in f`.
+// gateVersions    the distinct N of all gate atoms.
+
+type c16Ctx struct {
+	gates []int64 // versions known to hold
+	flag  bool    // a node's Optional flag is known to be set
+}
+
+func (c c16Ctx) with(atoms []c16Atom) c16Ctx {
+	out := c16Ctx{append([]int64(nil), c.gates...), c.flag}
+	for _, a := range atoms {
+		if a.flag {
+			out.flag = true
+		} else {
+			out.gates = append(out.gates, a.n)
+		}
+	}
+	return out
+}
+
+func (c c16Ctx) label() string {
+	if len(c.gates) > 0 {
+		max := c.gates[0]
+		for _, g := range c.gates {
+			if g > max {
+				max = g
+			}
+		}
+		return fmt.Sprintf("gated %d", max)
+	}
+	if c.flag {
+		return "input-flag Optional"
+	}
+	return ""
+}
+
+type c16Atom struct {
+	n    int64
+	flag bool
+}
+
+type c16State struct {
+	e         *tenv
+	p         *packages.Package
+	single    map[types.Object]ast.Expr
+	gateFns   map[*types.Func]bool
+	versions  map[int64]bool
+	producers map[string]bool
+	// constructor functions: kind set; call sites collected per function for propagation
+	ctor     map[*types.Func]map[string]bool
+	cur      *types.Func
+	curName  string
+	changed  bool
+	tokNames map[int64]string
+	tokType  types.Type
+}
+
+var c16NewerBytes = map[string]bool{"**": true, "**=": true, "?.": true, "??": true, "??=": true, "||=": true, "&&=": true}
+var c16NewerTokens = map[string]bool{"NullishToken": true, "OptChainToken": true, "ExpToken": true, "ExpEqToken": true, "NullishEqToken": true, "AndEqToken": true, "OrEqToken": true}
+
+func (s *c16State) isVersionField(x ast.Expr) bool {
+	sel, ok := unparen(x).(*ast.SelectorExpr)
+	if !ok {
+		return false
+	}
+	sl, ok := s.p.TypesInfo.Selections[sel]
+	if !ok || sl.Kind() != types.FieldVal || sl.Obj().Name() != "Version" {
+		return false
+	}
+	rt := sl.Recv()
+	if pt, ok := rt.Underlying().(*types.Pointer); ok {
+		rt = pt.Elem()
+	}
+	nt, ok := types.Unalias(rt).(*types.Named)
+	return ok && nt.Obj().Name() == "Minifier" && nt.Obj().Pkg() == s.p.Types
+}
+
+// versionTest: x is `V == 0 || c <= V` for some expression c; returns c
+func (s *c16State) versionTest(x ast.Expr) (ast.Expr, bool) {
+	b, ok := unparen(x).(*ast.BinaryExpr)
+	if !ok || b.Op != token.LOR {
+		return nil, false
+	}
+	isZeroTest := func(y ast.Expr) bool {
+		c, ok := unparen(y).(*ast.BinaryExpr)
+		if !ok || c.Op != token.EQL {
+			return false
+		}
+		for _, pr := range [][2]ast.Expr{{c.X, c.Y}, {c.Y, c.X}} {
+			if s.isVersionField(pr[0]) {
+				if n, err := s.e.Int(s.p, pr[1]); err == nil && n == 0 {
+					return true
+				}
+			}
+		}
+		return false
+	}
+	atLeast := func(y ast.Expr) (ast.Expr, bool) {
+		c, ok := unparen(y).(*ast.BinaryExpr)
+		if !ok {
+			return nil, false
+		}
+		if c.Op == token.LEQ && s.isVersionField(c.Y) {
+			return c.X, true
+		}
+		if c.Op == token.GEQ && s.isVersionField(c.X) {
+			return c.Y, true
+		}
+		return nil, false
+	}
+	for _, pr := range [][2]ast.Expr{{b.X, b.Y}, {b.Y, b.X}} {
+		if isZeroTest(pr[0]) {
+			if c, ok := atLeast(pr[1]); ok {
+				return c, true
+			}
+		}
+	}
+	return nil, false
+}
+
+func (s *c16State) findGateFns() {
+	info := s.p.TypesInfo
+	for _, f := range s.p.Syntax {
+		if !isRepoFile(s.e.r.Fset, f) {
+			continue
+		}
+		for _, d := range f.Decls {
+			fd, ok := d.(*ast.FuncDecl)
+			if !ok || fd.Body == nil || len(fd.Body.List) != 1 {
+				continue
+			}
+			fn, _ := info.Defs[fd.Name].(*types.Func)
+			if fn == nil {
+				continue
+			}
+			sig := fn.Type().(*types.Signature)
+			if sig.Params().Len() != 1 || sig.Results().Len() != 1 || !types.Identical(sig.Results().At(0).Type(), types.Typ[types.Bool]) {
+				continue
+			}
+			ret, ok := fd.Body.List[0].(*ast.ReturnStmt)
+			if !ok || len(ret.Results) != 1 {
+				continue
+			}
+			c, ok := s.versionTest(ret.Results[0])
+			if !ok {
+				continue
+			}
+			if id, ok := unparen(c).(*ast.Ident); ok && len(fd.Type.Params.List) == 1 && len(fd.Type.Params.List[0].Names) == 1 && info.Uses[id] == info.Defs[fd.Type.Params.List[0].Names[0]] {
+				s.gateFns[fn] = true
+			}
+		}
+	}
+}
+
+// atom: x is a gate atom / Optional-flag test
+func (s *c16State) atom(x ast.Expr) (c16Atom, bool) {
+	info := s.p.TypesInfo
+	x = unparen(x)
+	for depth := 0; depth < 10; depth++ {
+		id, ok := x.(*ast.Ident)
+		if !ok {
+			break
+		}
+		def, ok := s.single[info.Uses[id]]
+		if !ok {
+			break
+		}
+		x = unparen(def)
+	}
+	switch v := x.(type) {
+	case *ast.CallExpr:
+		if fn := calleeOf(info, v); fn != nil && s.gateFns[fn.Origin()] && len(v.Args) == 1 {
+			if n, err := s.e.Int(s.p, v.Args[0]); err == nil {
+				s.versions[n] = true
+				return c16Atom{n: n}, true
+			}
+		}
+	case *ast.BinaryExpr:
+		if c, ok := s.versionTest(v); ok {
+			if n, err := s.e.Int(s.p, c); err == nil {
+				s.versions[n] = true
+				return c16Atom{n: n}, true
+			}
+		}
+	case *ast.SelectorExpr:
+		if sl, ok := info.Selections[v]; ok && sl.Kind() == types.FieldVal && sl.Obj().Name() == "Optional" && sl.Obj().Pkg() != nil && sl.Obj().Pkg().Path() == "github.com/tdewolff/parse/v2/js" {
+			return c16Atom{flag: true}, true
+		}
+	}
+	return c16Atom{}, false
+}
+
+func c16Intersect(a, b []c16Atom) []c16Atom {
+	var out []c16Atom
+	for _, x := range a {
+		for _, y := range b {
+			if x == y {
+				out = append(out, x)
+			}
+		}
+	}
+	return out
+}
+
+// holds: the atoms that hold when cond evaluates to `truth`
+func (s *c16State) holds(cond ast.Expr, truth bool) []c16Atom {
+	cond = unparen(cond)
+	if a, ok := s.atom(cond); ok {
+		if truth {
+			return []c16Atom{a}
+		}
+		return nil
+	}
+	switch v := cond.(type) {
+	case *ast.UnaryExpr:
+		if v.Op == token.NOT {
+			return s.holds(v.X, !truth)
+		}
+	case *ast.BinaryExpr:
+		if v.Op == token.LAND {
+			if truth {
+				return append(s.holds(v.X, true), s.holds(v.Y, true)...)
+			}
+			return c16Intersect(s.holds(v.X, false), s.holds(v.Y, false))
+		}
+		if v.Op == token.LOR {
+			if truth {
+				return c16Intersect(s.holds(v.X, true), s.holds(v.Y, true))
+			}
+			return append(s.holds(v.X, false), s.holds(v.Y, false)...)
+		}
+	}
+	return nil
+}
+
+func (s *c16State) produce(kind string, ctx c16Ctx) {
+	if l := ctx.label(); l != "" {
+		s.producers[kind+": "+l] = true
+		return
+	}
+	// not gated inside this function: the function constructs newer syntax
+	if s.cur == nil {
+		s.producers[kind+": UNGATED in "+s.curName] = true
+		return
+	}
+	m := s.ctor[s.cur]
+	if m == nil {
+		m = map[string]bool{}
+		s.ctor[s.cur] = m
+	}
+	if !m[kind] {
+		m[kind] = true
+		s.changed = true
+	}
+}
+
+func (s *c16State) isTokenConst(x ast.Expr) (string, bool) {
+	tv, ok := s.p.TypesInfo.Types[x]
+	if !ok || tv.Value == nil || s.tokType == nil || !types.Identical(tv.Type, s.tokType) {
+		return "", false
+	}
+	n, err := s.e.Int(s.p, x)
+	if err != nil {
+		return "", false
+	}
+	name, ok := s.tokNames[n]
+	return name, ok && c16NewerTokens[name]
+}
+
+// expr walks an expression for producer sites, honouring short-circuit evaluation
+func (s *c16State) expr(x ast.Expr, ctx c16Ctx) {
+	info := s.p.TypesInfo
+	switch v := x.(type) {
+	case nil:
+		return
+	case *ast.ParenExpr:
+		s.expr(v.X, ctx)
+	case *ast.BinaryExpr:
+		s.expr(v.X, ctx)
+		switch v.Op {
+		case token.LAND:
+			s.expr(v.Y, ctx.with(s.holds(v.X, true)))
+		case token.LOR:
+			s.expr(v.Y, ctx.with(s.holds(v.X, false)))
+		default:
+			s.expr(v.Y, ctx)
+		}
+	case *ast.UnaryExpr:
+		s.expr(v.X, ctx)
+	case *ast.StarExpr:
+		s.expr(v.X, ctx)
+	case *ast.SelectorExpr:
+		s.expr(v.X, ctx)
+	case *ast.IndexExpr:
+		s.expr(v.X, ctx)
+		s.expr(v.Index, ctx)
+	case *ast.SliceExpr:
+		s.expr(v.X, ctx)
+		s.expr(v.Low, ctx)
+		s.expr(v.High, ctx)
+		s.expr(v.Max, ctx)
+	case *ast.TypeAssertExpr:
+		s.expr(v.X, ctx)
+	case *ast.KeyValueExpr:
+		s.expr(v.Value, ctx)
+	case *ast.FuncLit:
+		s.block(v.Body.List, ctx)
+	case *ast.CompositeLit:
+		_, isMap := info.TypeOf(v).Underlying().(*types.Map)
+		for _, el := range v.Elts {
+			val := el
+			if kv, ok := el.(*ast.KeyValueExpr); ok {
+				val = kv.Value
+				if !isMap {
+					if id, ok := kv.Key.(*ast.Ident); ok && id.Name == "Optional" {
+						if b, err := s.e.Bool(s.p, val); err != nil || b {
+							if f, ok := info.Uses[id].(*types.Var); ok && f.IsField() && f.Pkg() != nil && f.Pkg().Path() == "github.com/tdewolff/parse/v2/js" {
+								s.produce("set Optional", ctx)
+							}
+						}
+					}
+				} else {
+					s.expr(kv.Key, ctx) // calls inside keys; token constants as keys are not values
+				}
+			}
+			if name, ok := s.isTokenConst(val); ok && !isMap {
+				s.produce("token "+name, ctx)
+			}
+			s.expr(val, ctx)
+		}
+	case *ast.CallExpr:
+		s.expr(v.Fun, ctx)
+		fn := calleeOf(info, v)
+		for _, a := range v.Args {
+			if t := info.TypeOf(a); t != nil && isByteSlice(t) {
+				if b, err := s.e.Bytes(s.p, a); err == nil && c16NewerBytes[b] {
+					s.produce("bytes "+b, ctx)
+				}
+			}
+			if name, ok := s.isTokenConst(a); ok {
+				s.produce("token "+name, ctx)
+			}
+			s.expr(a, ctx)
+		}
+		if fn != nil {
+			if fn.Pkg() == s.p.Types && fn.Name() == "minifyString" && len(v.Args) == 2 {
+				allow := v.Args[1]
+				if b, err := s.e.Bool(s.p, allow); err == nil {
+					if b {
+						s.produce("template", ctx)
+					}
+				} else if a, ok := s.atom(allow); ok && !a.flag {
+					s.producers[fmt.Sprintf("template: gated %d", a.n)] = true
+				} else {
+					s.produce("template", ctx)
+				}
+			}
+			for kind := range s.ctor[fn.Origin()] {
+				s.produce(kind, ctx)
+			}
+		}
+	}
+}
+
+// shorthand: the ES2015 shorthand `{a}` is written when the `name:` prefix is skipped because the value is a variable of the
+// same name, i.e. by an `if` whose condition asks `<x>.<Name|Key>.IsIdent(…)` (method IsIdent of parse/v2/js.PropertyName).
+// Recorded: the struct the property name belongs to (js.Property: an object literal; js.BindingObjectItem: a destructuring
+// pattern, which is ES2015 syntax of the input already) and whether that condition consults a gate atom.
+func (s *c16State) shorthand(cond ast.Expr) {
+	info := s.p.TypesInfo
+	owner := ""
+	ast.Inspect(cond, func(n ast.Node) bool {
+		call, ok := n.(*ast.CallExpr)
+		if !ok {
+			return true
+		}
+		fn := calleeOf(info, call)
+		if fn == nil || fn.Name() != "IsIdent" || fn.Pkg() == nil || fn.Pkg().Path() != "github.com/tdewolff/parse/v2/js" {
+			return true
+		}
+		owner = "?"
+		if sel, ok := unparen(call.Fun).(*ast.SelectorExpr); ok {
+			if inner, ok := unparen(sel.X).(*ast.SelectorExpr); ok {
+				if fs, ok := info.Selections[inner]; ok && fs.Kind() == types.FieldVal {
+					rt := fs.Recv()
+					if pt, ok := rt.Underlying().(*types.Pointer); ok {
+						rt = pt.Elem()
+					}
+					owner = types.TypeString(rt, func(p *types.Package) string { return p.Name() })
+				}
+			}
+		}
+		return true
+	})
+	if owner == "" {
+		return
+	}
+	var gates []int64
+	var find func(x ast.Expr)
+	find = func(x ast.Expr) {
+		x = unparen(x)
+		if a, ok := s.atom(x); ok && !a.flag {
+			gates = append(gates, a.n)
+			return
+		}
+		switch v := x.(type) {
+		case *ast.BinaryExpr:
+			find(v.X)
+			find(v.Y)
+		case *ast.UnaryExpr:
+			find(v.X)
+		}
+	}
+	find(cond)
+	label := "no gate"
+	if len(gates) > 0 {
+		sort.Slice(gates, func(i, j int) bool { return gates[i] < gates[j] })
+		label = fmt.Sprintf("condition consults gate %d", gates[len(gates)-1])
+	}
+	s.producers["property shorthand of "+owner+": "+label] = true
+}
+
+func c16Terminates(list []ast.Stmt) bool {
+	if len(list) == 0 {
+		return false
+	}
+	switch t := list[len(list)-1].(type) {
+	case *ast.ReturnStmt:
+		return true
+	case *ast.BranchStmt:
+		return t.Tok == token.BREAK || t.Tok == token.CONTINUE || t.Tok == token.GOTO
+	case *ast.ExprStmt:
+		if c, ok := t.X.(*ast.CallExpr); ok {
+			if id, ok := c.Fun.(*ast.Ident); ok && id.Name == "panic" {
+				return true
+			}
+		}
+	case *ast.BlockStmt:
+		return c16Terminates(t.List)
+	}
+	return false
+}
+
+func (s *c16State) block(list []ast.Stmt, ctx c16Ctx) {
+	for _, st := range list {
+		ctx = s.stmt(st, ctx)
+	}
+}
+
+// stmt walks one statement and returns the context for the statements that follow it in the same list
+func (s *c16State) stmt(st ast.Stmt, ctx c16Ctx) c16Ctx {
+	info := s.p.TypesInfo
+	switch v := st.(type) {
+	case nil:
+	case *ast.ExprStmt:
+		s.expr(v.X, ctx)
+	case *ast.AssignStmt:
+		for i, l := range v.Lhs {
+			if sel, ok := unparen(l).(*ast.SelectorExpr); ok && sel.Sel.Name == "Optional" && i < len(v.Rhs) {
+				if sl, ok := info.Selections[sel]; ok && sl.Obj().Pkg() != nil && sl.Obj().Pkg().Path() == "github.com/tdewolff/parse/v2/js" {
+					if b, err := s.e.Bool(s.p, v.Rhs[i]); err != nil || b {
+						s.produce("set Optional", ctx)
+					}
+				}
+			}
+			s.expr(l, ctx)
+		}
+		for _, r := range v.Rhs {
+			if name, ok := s.isTokenConst(r); ok {
+				s.produce("token "+name, ctx)
+			}
+			s.expr(r, ctx)
+		}
+	case *ast.DeclStmt:
+		if gd, ok := v.Decl.(*ast.GenDecl); ok {
+			for _, sp := range gd.Specs {
+				if vs, ok := sp.(*ast.ValueSpec); ok {
+					for _, r := range vs.Values {
+						s.expr(r, ctx)
+					}
+				}
+			}
+		}
+	case *ast.ReturnStmt:
+		for _, r := range v.Results {
+			if name, ok := s.isTokenConst(r); ok {
+				s.produce("token "+name, ctx)
+			}
+			s.expr(r, ctx)
+		}
+	case *ast.IncDecStmt:
+		s.expr(v.X, ctx)
+	case *ast.SendStmt:
+		s.expr(v.Value, ctx)
+	case *ast.GoStmt:
+		s.expr(v.Call, ctx)
+	case *ast.DeferStmt:
+		s.expr(v.Call, ctx)
+	case *ast.LabeledStmt:
+		return s.stmt(v.Stmt, ctx)
+	case *ast.BlockStmt:
+		s.block(v.List, ctx)
+	case *ast.IfStmt:
+		inner := ctx
+		if v.Init != nil {
+			inner = s.stmt(v.Init, ctx)
+		}
+		s.shorthand(v.Cond)
+		s.expr(v.Cond, inner)
+		s.block(v.Body.List, inner.with(s.holds(v.Cond, true)))
+		elseCtx := inner.with(s.holds(v.Cond, false))
+		elseTerm := false
+		switch e := v.Else.(type) {
+		case *ast.BlockStmt:
+			s.block(e.List, elseCtx)
+			elseTerm = c16Terminates(e.List)
+		case *ast.IfStmt:
+			s.stmt(e, elseCtx)
+		}
+		if c16Terminates(v.Body.List) && !elseTerm {
+			return ctx.with(s.holds(v.Cond, false))
+		}
+		if elseTerm && !c16Terminates(v.Body.List) {
+			return ctx.with(s.holds(v.Cond, true))
+		}
+	case *ast.ForStmt:
+		inner := ctx
+		if v.Init != nil {
+			inner = s.stmt(v.Init, ctx)
+		}
+		s.expr(v.Cond, inner)
+		if v.Post != nil {
+			s.stmt(v.Post, inner)
+		}
+		s.block(v.Body.List, inner)
+	case *ast.RangeStmt:
+		s.expr(v.X, ctx)
+		s.block(v.Body.List, ctx)
+	case *ast.SwitchStmt:
+		inner := ctx
+		if v.Init != nil {
+			inner = s.stmt(v.Init, ctx)
+		}
+		s.expr(v.Tag, inner)
+		for _, c := range v.Body.List {
+			cc := c.(*ast.CaseClause)
+			cctx := inner
+			if v.Tag == nil && len(cc.List) == 1 {
+				cctx = inner.with(s.holds(cc.List[0], true))
+			}
+			for _, x := range cc.List {
+				s.expr(x, inner)
+			}
+			s.block(cc.Body, cctx)
+		}
+	case *ast.TypeSwitchStmt:
+		inner := ctx
+		if v.Init != nil {
+			inner = s.stmt(v.Init, ctx)
+		}
+		s.stmt(v.Assign, inner)
+		for _, c := range v.Body.List {
+			s.block(c.(*ast.CaseClause).Body, inner)
+		}
+	case *ast.SelectStmt:
+		for _, c := range v.Body.List {
+			s.block(c.(*ast.CommClause).Body, ctx)
+		}
+	}
+	return ctx
+}
+
 func init() {
 	gen("JsVersionGates", func(r *Repo) (string, error) {
-		fs, err := r.Files("js")
+		e, err := r.TEnv()
 		if err != nil {
 			return "", err
 		}
-		var gates, producers []string
-		for _, f := range fs {
-			for _, d := range f.Decls {
-				fd, ok := d.(*ast.FuncDecl)
-				if !ok || fd.Body == nil {
-					continue
+		p, err := e.Pkg("js")
+		if err != nil {
+			return "", err
+		}
+		s := &c16State{e: e, p: p, single: singleDefs(p), gateFns: map[*types.Func]bool{}, versions: map[int64]bool{}, producers: map[string]bool{},
+			ctor: map[*types.Func]map[string]bool{}}
+		if dep, ok := e.byPath["github.com/tdewolff/parse/v2/js"]; ok {
+			if tn, ok := dep.Types.Scope().Lookup("TokenType").(*types.TypeName); ok {
+				s.tokType = tn.Type()
+				if s.tokNames, err = e.ConstNames(tn.Type()); err != nil {
+					return "", err
 				}
-				fn := funcName(fd)
-				// which producer calls sit inside the BODY of an `if` whose condition mentions minVersion(N): a call in the
-				// init statement or the condition itself runs before the gate is evaluated
-				guard := map[*ast.CallExpr]string{}
-				var walk func(n ast.Node, g string)
-				walk = func(n ast.Node, g string) {
-					ast.Inspect(n, func(x ast.Node) bool {
-						switch t := x.(type) {
-						case *ast.IfStmt:
-							if t.Init != nil {
-								walk(t.Init, g)
-							}
-							walk(t.Cond, g)
-							g2 := g
-							ct := exprText(r.Fset, t.Cond)
-							if i := strings.Index(ct, "minVersion("); i >= 0 {
-								g2 = ct[i : i+strings.Index(ct[i:], ")")+1]
-							}
-							walk(t.Body, g2)
-							if t.Else != nil {
-								walk(t.Else, g)
-							}
-							return false
-						case *ast.CallExpr:
-							guard[t] = g
-						}
-						return true
-					})
-				}
-				walk(fd.Body, "")
-				ast.Inspect(fd.Body, func(n ast.Node) bool {
-					// the ES2015 property shorthand `{a}`: written when the `name:` prefix is skipped because the value is a
-					// variable of the same name — record whether that condition consults the version
-					if ifs, ok := n.(*ast.IfStmt); ok {
-						ct := exprText(r.Fset, ifs.Cond)
-						if strings.Contains(ct, ".IsIdent(") {
-							g := "no-gate"
-							if i := strings.Index(ct, "minVersion("); i >= 0 {
-								g = ct[i : i+strings.Index(ct[i:], ")")+1]
-							}
-							producers = append(producers, fmt.Sprintf("%s: property shorthand (name: skipped when Name.IsIdent) gate %s", fn, g))
-						}
-					}
-					call, ok := n.(*ast.CallExpr)
-					if !ok {
-						return true
-					}
-					ft := exprText(r.Fset, call.Fun)
-					if strings.HasSuffix(ft, ".minVersion") && len(call.Args) == 1 {
-						gates = append(gates, fmt.Sprintf("%s: minVersion(%s)", fn, exprText(r.Fset, call.Args[0])))
-					}
-					if strings.HasSuffix(ft, ".write") && len(call.Args) == 1 {
-						a := exprText(r.Fset, call.Args[0])
-						if a == "expBytes" || a == "optChainBytes" {
-							g := guard[call]
-							if g == "" {
-								g = "no-gate"
-							}
-							producers = append(producers, fmt.Sprintf("%s: write(%s) inside %s", fn, a, g))
-						}
-					}
-					if ft == "toNullishExpr" {
-						g := guard[call]
-						if g == "" {
-							g = "UNGUARDED"
-						}
-						producers = append(producers, fmt.Sprintf("%s: toNullishExpr inside %s", fn, g))
-					}
-					if ft == "minifyString" && len(call.Args) == 2 {
-						producers = append(producers, fmt.Sprintf("%s: minifyString allowTemplate=%s", fn, exprText(r.Fset, call.Args[1])))
-					}
-					return true
-				})
 			}
 		}
-		sort.Strings(gates)
-		sort.Strings(producers)
+		if s.tokType == nil {
+			return "", fmt.Errorf("dependency type parse/v2/js.TokenType not found")
+		}
+		s.findGateFns()
+		type fdecl struct {
+			fd *ast.FuncDecl
+			fn *types.Func
+		}
+		var decls []fdecl
+		for _, f := range p.Syntax {
+			if !isRepoFile(r.Fset, f) {
+				continue
+			}
+			for _, d := range f.Decls {
+				if fd, ok := d.(*ast.FuncDecl); ok && fd.Body != nil {
+					fn, _ := p.TypesInfo.Defs[fd.Name].(*types.Func)
+					decls = append(decls, fdecl{fd, fn})
+				}
+			}
+		}
+		sort.Slice(decls, func(i, j int) bool { return funcName(decls[i].fd) < funcName(decls[j].fd) })
+		// which functions are called from inside the package (a constructor nobody calls, or an exported one, is an
+		// ungated producer in its own right)
+		called := map[*types.Func]bool{}
+		for _, d := range decls {
+			ast.Inspect(d.fd.Body, func(n ast.Node) bool {
+				if c, ok := n.(*ast.CallExpr); ok {
+					if fn := calleeOf(p.TypesInfo, c); fn != nil {
+						called[fn.Origin()] = true
+					}
+				}
+				return true
+			})
+		}
+		for round := 0; round < 10; round++ {
+			s.changed = false
+			s.producers = map[string]bool{}
+			for _, d := range decls {
+				s.cur, s.curName = d.fn, funcName(d.fd)
+				if d.fn != nil && (d.fn.Exported() && d.fd.Recv == nil || !called[d.fn.Origin()] || round >= 8) {
+					s.cur = nil // nothing above it to carry the gate
+				}
+				s.block(d.fd.Body.List, c16Ctx{})
+			}
+			if !s.changed {
+				break
+			}
+		}
+		var vs []int64
+		for v := range s.versions {
+			vs = append(vs, v)
+		}
+		sort.Slice(vs, func(i, j int) bool { return vs[i] < vs[j] })
+		var vtxt []string
+		for _, v := range vs {
+			vtxt = append(vtxt, fmt.Sprint(v))
+		}
+		var prods []string
+		for k := range s.producers {
+			prods = append(prods, k)
+		}
+		sort.Strings(prods)
+		var gfs []string
+		for fn := range s.gateFns {
+			gfs = append(gfs, shortFuncName(fn))
+		}
+		sort.Strings(gfs)
 		var b strings.Builder
-		b.WriteString(header("JsVersionGates", "/repo/js (minVersion call sites and producers of newer syntax)"))
-		fmt.Fprintf(&b, "def gates : List String := %s\n\n", leanStrList(gates))
-		fmt.Fprintf(&b, "def producers : List String := %s\n", leanStrList(producers))
+		b.WriteString(header("JsVersionGates", "/repo/js (version gates and producers of newer syntax; see harness/cmd/extract/c16_flags.go for the definitions)"))
+		fmt.Fprintf(&b, "/-- number of functions of package js of the shape `return o.Version == 0 || v <= o.Version` (found by shape, not by name) -/\ndef gateFunctions : Nat := %d\n\n", len(gfs))
+		fmt.Fprintf(&b, "/-- the distinct versions tested by gate atoms -/\ndef gateVersions : List Nat := [%s]\n\n", strings.Join(vtxt, ", "))
+		fmt.Fprintf(&b, "/-- `kind: gated N | input-flag Optional | UNGATED in f` for every producer of newer syntax (a set: sorted, no duplicates) -/\ndef producers : List String := %s\n", leanStrList(prods))
 		b.WriteString(footer("JsVersionGates"))
 		return b.String(), nil
 	})
 }
 
-// option reads: every place where a field of a Minifier option struct is read in the six minifier packages, with the
-// enclosing function and the innermost context (the call it is an argument of, the `if` condition it occurs in, or the
-// assignment it feeds) — so that a new consumer of an option, or an option check that disappears, changes the
-// regenerated list (`option_sites_ok`).
+// option reads: every place where a field of a Minifier option struct is read or written in the six minifier packages,
+// with the enclosing function and the innermost context — so that a new consumer of an option, or an option check that
+// disappears, changes the regenerated list (`option_sites_ok`).  Resolved through the type checker: the option struct is
+// recognised by its type (whatever the receiver / local copy is called), the context is
+//
+//	`if-condition`                 the read occurs in the condition of an `if`
+//	`arg N of <callee>`            it is (part of) argument N of a call; the callee by its resolved name (pkg.Func, pkg.Type.Method)
+//	`assigned to field <T.f>` / `assigned to a local`      it feeds an assignment
+//	`WRITE`                        the field is assigned
+//	`returned` / `expr`
+//
+// Variable names, the text of conditions and the names of unexported functions are not part of the fact (the enclosing
+// function is named only when it is an exported function / method of an exported type).
 func init() {
 	gen("OptionSites", func(r *Repo) (string, error) {
-		fields := map[string]bool{"KeepComments": true, "KeepConditionalComments": true, "KeepSpecialComments": true,
-			"KeepDefaultAttrVals": true, "KeepDocumentTags": true, "KeepEndTags": true, "KeepQuotes": true, "KeepWhitespace": true,
-			"TemplateDelims": true, "KeepCSS2": true, "Precision": true, "newPrecision": true, "Inline": true, "KeepVarNames": true,
-			"useAlphabetVarNames": true, "Version": true, "KeepNumbers": true}
+		e, err := r.TEnv()
+		if err != nil {
+			return "", err
+		}
 		var sites []string
-		for _, pkg := range []string{"css", "html", "js", "json", "svg", "xml"} {
-			fs, err := r.Files(pkg)
+		for _, pkg := range c16OptionPkgs {
+			p, err := e.Pkg(pkg)
 			if err != nil {
 				return "", err
 			}
-			for _, f := range fs {
+			info := p.TypesInfo
+			isOption := func(sel *ast.SelectorExpr) bool {
+				s, ok := info.Selections[sel]
+				if !ok || s.Kind() != types.FieldVal {
+					return false
+				}
+				rt := s.Recv()
+				if pt, ok := rt.Underlying().(*types.Pointer); ok {
+					rt = pt.Elem()
+				}
+				nt, ok := types.Unalias(rt).(*types.Named)
+				return ok && nt.Obj().Name() == "Minifier" && nt.Obj().Pkg() == p.Types
+			}
+			for _, f := range p.Syntax {
+				if !isRepoFile(r.Fset, f) {
+					continue
+				}
 				for _, d := range f.Decls {
 					fd, ok := d.(*ast.FuncDecl)
 					if !ok || fd.Body == nil {
 						continue
 					}
-					fn := funcName(fd)
+					// the enclosing function is part of the fact only when it is API (an exported function, or an exported method of an
+					// exported type): unexported helpers may be renamed, split and merged freely
+					fn := "(unexported)"
+					if fd.Name.IsExported() {
+						fn = funcName(fd)
+						if fd.Recv != nil && !ast.IsExported(strings.SplitN(fn, ".", 2)[0]) {
+							fn = "(unexported)"
+						}
+					}
 					var stack []ast.Node
 					ast.Inspect(fd.Body, func(n ast.Node) bool {
 						if n == nil {
@@ -264,33 +1121,32 @@ func init() {
 						}
 						stack = append(stack, n)
 						sel, ok := n.(*ast.SelectorExpr)
-						if !ok || !fields[sel.Sel.Name] {
-							return true
-						}
-						recv := exprText(r.Fset, sel.X)
-						if recv != "o" && !strings.HasSuffix(recv, ".o") && recv != "tmp" {
+						if !ok || !isOption(sel) {
 							return true
 						}
 						ctx := "expr"
 						for i := len(stack) - 2; i >= 0; i-- {
 							switch t := stack[i].(type) {
 							case *ast.CallExpr:
-								isArg := false
-								for _, a := range t.Args {
+								for k, a := range t.Args {
 									if a.Pos() <= sel.Pos() && sel.End() <= a.End() {
-										isArg = true
+										callee := types.ExprString(t.Fun)
+										if fo := calleeOf(info, t); fo != nil {
+											callee = shortFuncName(fo)
+											if fo.Pkg() == p.Types && !fo.Exported() {
+												callee = "an unexported function of the package"
+											}
+										} else if id, ok := unparen(t.Fun).(*ast.Ident); ok {
+											if _, isB := info.Uses[id].(*types.Builtin); !isB {
+												callee = "a function value"
+											}
+										}
+										ctx = fmt.Sprintf("arg %d of %s", k, callee)
 									}
-								}
-								if isArg {
-									ctx = "arg of " + exprText(r.Fset, t.Fun)
 								}
 							case *ast.IfStmt:
 								if t.Cond.Pos() <= sel.Pos() && sel.End() <= t.Cond.End() {
-									c := exprText(r.Fset, t.Cond)
-									if len(c) > 60 {
-										c = c[:60] + ".."
-									}
-									ctx = "if " + c
+									ctx = "if-condition"
 								}
 							case *ast.AssignStmt:
 								onLeft := false
@@ -302,7 +1158,16 @@ func init() {
 								if onLeft {
 									ctx = "WRITE"
 								} else {
-									ctx = "assigned to " + exprText(r.Fset, t.Lhs[0])
+									ctx = "assigned to a local"
+									if ls, ok := unparen(t.Lhs[0]).(*ast.SelectorExpr); ok {
+										if s, ok := info.Selections[ls]; ok && s.Kind() == types.FieldVal {
+											rt := s.Recv()
+											if pt, ok := rt.Underlying().(*types.Pointer); ok {
+												rt = pt.Elem()
+											}
+											ctx = "assigned to field " + types.TypeString(rt, func(p *types.Package) string { return p.Name() }) + "." + s.Obj().Name()
+										}
+									}
 								}
 							case *ast.ReturnStmt:
 								ctx = "returned"
@@ -320,17 +1185,16 @@ func init() {
 		sort.Strings(sites)
 		var b strings.Builder
 		b.WriteString(header("OptionSites", "/repo/{css,html,js,json,svg,xml} (every read or write of an option field)"))
-		fmt.Fprintf(&b, "def sites : List String := %s\n", leanStrList(sites))
+		fmt.Fprintf(&b, "def sites : List String := [\n")
+		for i, s := range sites {
+			sep := ","
+			if i == len(sites)-1 {
+				sep = ""
+			}
+			fmt.Fprintf(&b, "  %s%s\n", leanStr(s), sep)
+		}
+		b.WriteString("]\n")
 		b.WriteString(footer("OptionSites"))
 		return b.String(), nil
 	})
-}
-
-// c16Src prints an expression in full (types.ExprString abbreviates composite literals)
-func c16Src(r *Repo, e ast.Expr) string {
-	var b strings.Builder
-	if err := printer.Fprint(&b, r.Fset, e); err != nil {
-		return exprText(r.Fset, e)
-	}
-	return strings.Join(strings.Fields(b.String()), " ")
 }
